@@ -20,6 +20,7 @@ fn main() {
     let mut strict = false;
     let mut part_out: Option<PathBuf> = None;
     let mut cases: Option<u64> = None;
+    let mut from_fuzz: Option<(String, PathBuf)> = None;
     let mut root = PathBuf::from(std::env::var("VERIF_ROOT").unwrap_or_else(|_| "/verif".into()));
     let mut i = 2;
     while i < argv.len() {
@@ -40,6 +41,10 @@ fn main() {
             "--replay" => replay = Some(PathBuf::from(next())),
             "--strict" => strict = true,
             "--part-out" => part_out = Some(PathBuf::from(next())),
+            "--from-fuzz" => {
+                let t = next();
+                from_fuzz = Some((t, PathBuf::from(next())));
+            }
             "--cases" => cases = Some(next().parse().unwrap_or_else(|_| usage())),
             "--root" => root = PathBuf::from(next()),
             _ => usage(),
@@ -47,6 +52,34 @@ fn main() {
         i += 1;
     }
     engine::install_panic_hook();
+    if let Some((target, path)) = from_fuzz {
+        // Re-judge a libFuzzer artifact in the plain (non-instrumented) harness.
+        let data = std::fs::read(&path).unwrap_or_default();
+        match oracle::fuzz_dispatch(&id, &data) {
+            oracle::FuzzVerdict::Violation(msg, case) => {
+                let dir = root.join("replays");
+                let _ = std::fs::create_dir_all(&dir);
+                let name = path.file_name().map(|n| n.to_string_lossy().to_string()).unwrap_or_default();
+                let out = dir.join(format!("{id}-fuzz-{target}-{name}.json"));
+                let v = serde_json::json!({
+                    "property": id, "build": tw_verif::BUILD, "found_by": format!("libFuzzer target {target}, artifact {}", path.display()),
+                    "message": msg, "case": case,
+                });
+                let _ = std::fs::write(&out, serde_json::to_string_pretty(&v).unwrap());
+                println!("FAIL property={id} (libFuzzer artifact {}): {msg}", path.display());
+                println!("VIOLATION property={id} replay={}", out.display());
+                std::process::exit(1);
+            }
+            oracle::FuzzVerdict::Ok => {
+                println!("INFO property={id}: artifact {} does not violate the property in the plain harness", path.display());
+                std::process::exit(0);
+            }
+            oracle::FuzzVerdict::Unknown => {
+                println!("ERROR: property {id} has no byte-level decoder");
+                std::process::exit(2);
+            }
+        }
+    }
     let args = RunArgs {
         root,
         tier,
